@@ -153,6 +153,9 @@ def generate(rng, tier):
             if solver == "alns":
                 p.update({"n_destroy": rng.randrange(1, 4), "n_repair": rng.randrange(1, 4), "segment_size": rng.choice([1, 2, 5, 100]),
                           "reaction_factor": rng.choice([0.0, 0.1, 1.0])})
+                if rng.random() < 0.4:  # caller-supplied operator weights (list objects the caller keeps and reuses)
+                    p["destroy_weights"] = [rng.choice([0.5, 1.0, 3.0]) for _ in range(p["n_destroy"])]
+                    p["repair_weights"] = [rng.choice([0.5, 1.0, 3.0]) for _ in range(p["n_repair"])]
         elif solver == "evolve":
             p = {"pop": [rng.randrange(S) for _ in range(rng.randrange(1, 9))], "elite_size": rng.randrange(0, 4),
                  "mutation_rate": rng.choice([0.0, 0.1, 0.5, 1.0]), "adaptive_mutation": rng.random() < 0.4,
@@ -371,7 +374,8 @@ def run_solver(case, policy, negate=False, minimize=None):
                     run.result = m.alns(box(case["start"]), f, [mk_destroy(i) for i in range(p["n_destroy"])],
                                         [mk_repair(i) for i in range(p["n_repair"])], accept=acc_fn, start_temp=p["start_temp"],
                                         cooling_rate=p["cooling_rate"], segment_size=p["segment_size"],
-                                        reaction_factor=p["reaction_factor"], max_iter=p["max_iter"],
+                                        reaction_factor=p["reaction_factor"], destroy_weights=p.get("destroy_weights"),
+                                        repair_weights=p.get("repair_weights"), max_iter=p["max_iter"],
                                         max_no_improve=p["max_no_improve"], seed=seed, **kw)
             elif solver == "evolve":
                 cross, mut = land["cross"], land["mut"]
